@@ -886,7 +886,7 @@ def inverse(v, what="inverse"):
     if len(nt) == 1 and len(nt[0][1].f) == 1 and nt[0][0].is_const() and A and B:
         c, n = nt[0]
         h, ix = n.f[0]
-        if len(ix) >= 2 and set(ix[-2:]) == {A[0], B[0]} and ST.head[h].sym and all(x in m for x in ix) and len(set(ix)) == len(ix):
+        if len(ix) >= 2 and set(ix[-2:]) == {A[0], B[0]} and ST.head[h].sym and ST.head[h].kind != "Inv" and all(x in m for x in ix) and len(set(ix)) == len(ix):
             if h not in ST.pair:
                 nh = f"Inv({h})"
                 ST.head[nh] = HeadInfo("InvAtom", sym=True)
@@ -918,6 +918,10 @@ def inverse(v, what="inverse"):
         e = eye(axsize(A))
         inv = mul(expand_dims(rec, ["k"] * (len(rec.axes)) + [None]), e)
         return inv, lg
+    sf = _single_factor(nt)
+    if sf is not None and sf[0].is_one() and ST.head[sf[1][0]].kind == "Inv" and all(x in set(v.free()) for x in sf[1][1]) and A and B:
+        inner = head_arg_val(sf[1][0], sf[1][1], v.axes)      # Inv(Inv(X)) = X
+        return Val(v.axes, inner.terms), neg(logdet(inner, what))
     occ = _occurring(v, nt)
     bsl = [x for x in occ if x not in mvars]
     hid, order = _find_or_make("Inv", nt, bsl, mvars, True)
@@ -954,7 +958,7 @@ def logdet(v, what="slogdet"):
     if len(nt) == 1 and len(nt[0][1].f) == 1 and nt[0][0].is_one() and A and B:
         c, n = nt[0]
         h, ix = n.f[0]
-        if len(ix) >= 2 and set(ix[-2:]) == {A[0], B[0]} and ST.head[h].sym and h not in ST.lndet and all(x in m for x in ix) and len(set(ix)) == len(ix):
+        if len(ix) >= 2 and set(ix[-2:]) == {A[0], B[0]} and ST.head[h].sym and ST.head[h].kind != "Inv" and h not in ST.lndet and all(x in m for x in ix) and len(set(ix)) == len(ix):
             lh = f"LnDet({h})"
             ST.head[lh] = HeadInfo("LnDetAtom")
             ST.lndet[h] = (1, lh)
@@ -967,6 +971,11 @@ def logdet(v, what="slogdet"):
     if dg is not None:
         dvec = Val(list(v.axes[:-2]) + [A], dg)
         return sum_axis(elementwise("Log", dvec), -1)
+    sf = _single_factor(nt)
+    if sf is not None and sf[0].is_one() and ST.head[sf[1][0]].kind == "Inv" and all(x in set(v.free()) for x in sf[1][1]) and A and B:
+        # LnDet(Inv(X)) = -LnDet(X)
+        inner = head_arg_val(sf[1][0], sf[1][1], v.axes)
+        return neg(logdet(inner, what))
     occ = _occurring(v, nt)
     bsl = [x for x in occ if x not in mvars]
     # LnDet is invariant under transposition: treat argument symmetric for lookup
@@ -1228,7 +1237,7 @@ def _net_sig(n):
     return tuple(sorted((h, len(ix)) for h, ix in n.f))
 
 
-def normalize_terms(terms, free):
+def _normalize_terms0(terms, free):
     buckets = {}
     order = []
     for c, n in terms:
@@ -1249,6 +1258,131 @@ def normalize_terms(terms, free):
             lst.append(e)
             order.append(e)
     return [(c, n) for c, n in order if not c.is_zero()]
+
+
+def _match_subnet(pattern, factors, m, used, exclusive_ok):
+    """backtracking: map every factor of `pattern` (list of (h, ix)) to a distinct unused factor of `factors`
+    extending variable map m (pattern var -> term var).  Yields (m, used)."""
+    if not pattern:
+        yield m, used
+        return
+    (h, ix), rest = pattern[0], pattern[1:]
+    for j, (h2, ix2) in enumerate(factors):
+        if j in used or h2 != h or len(ix2) != len(ix):
+            continue
+        for v in _variants(h2, ix2):
+            mm = dict(m)
+            inv = {b: a for a, b in mm.items()}
+            ok = True
+            for a, b in zip(ix, v):
+                if a in mm:
+                    if mm[a] != b:
+                        ok = False
+                        break
+                elif b in inv:
+                    ok = False
+                    break
+                else:
+                    mm[a] = b
+                    inv[b] = a
+            if ok:
+                yield from _match_subnet(rest, factors, mm, used | {j}, exclusive_ok)
+
+
+def _absorb_inverse(terms, free):
+    """rule 3 for hash-consed inverses:  Inv(X)[..,a,s] * X[..,s,c] -> delta[a,c]  where X = sum_t c_t X_t is the
+    (value-numbered) argument of the Inv head; the summands may be spread over several terms with a common rest."""
+    H = ST.head
+    changed = False
+    cands = {}      # key -> {t: (term index, ratio)}
+    for ti, (c, n) in enumerate(terms):
+        cnt = Counter(i for _, ix in n.f for i in ix)
+        for fi, (h, ix) in enumerate(n.f):
+            info = H[h]
+            if info.kind != "Inv" or len(ix) < 2:
+                continue
+            arg = info.arg[1]
+            for spos in (-1, -2):
+                s_, a_ = ix[spos], ix[-1 if spos == -2 else -2]
+                others = [g for k, g in enumerate(n.f) if k != fi]
+                # diagonal summands  X_t = d[..,m] delta[m1,m2]:  Inv[a,c] d[c] is (Inv X_t)[a,c] with the delta already contracted
+                for t, (ct, nt_) in enumerate(arg):
+                    dl = [g for g in nt_.f if g[0] == "delta" and set(g[1]) == set(info.mslots)]
+                    if len(dl) != 1 or s_ == a_:
+                        continue
+                    pat = [g for g in nt_.f if g is not dl[0]]
+                    m0 = dict(zip(info.bslots, ix[:-2]))
+                    m0[info.mslots[0]] = s_
+                    pat = [(hh, tuple(info.mslots[0] if x == info.mslots[1] else x for x in jx)) for hh, jx in pat]
+                    for mm, used in _match_subnet(pat, others, m0, frozenset(), None):
+                        rest = [g for k, g in enumerate(others) if k not in used]
+                        restnet = Net(rest + [("@a", (a_,)), ("@c", (s_,))])
+                        key = (h, tuple(sorted(_net_sig(restnet))))
+                        cands.setdefault(key, []).append((t, ti, c / ct, restnet, a_, s_))
+                        break
+                if s_ in free or cnt[s_] != 2 or s_ == a_:
+                    continue
+                for t, (ct, nt_) in enumerate(arg):
+                    base = dict(zip(info.bslots, ix[:-2]))
+                    for (m1, m2) in ((info.mslots[0], info.mslots[1]), (info.mslots[1], info.mslots[0])):
+                        m0 = dict(base)
+                        m0[m1] = s_
+                        for mm, used in _match_subnet(list(nt_.f), others, m0, frozenset(), None):
+                            if m2 not in mm:
+                                # pattern term does not mention the second matrix slot (e.g. delta-free scalar): skip
+                                continue
+                            c_ = mm[m2]
+                            # bound variables of the pattern must map to variables used only inside the matched factors
+                            pat_bound = [x for x in mm if x not in info.bslots and x not in info.mslots]
+                            rest = [g for k, g in enumerate(others) if k not in used]
+                            rest_vars = {j for _, jx in rest for j in jx}
+                            if any(mm[x] in rest_vars or mm[x] in free for x in pat_bound):
+                                continue
+                            if c_ == s_:
+                                continue
+                            restnet = Net(rest + [("@a", (a_,)), ("@c", (c_,))])
+                            key = (h, tuple(sorted(_net_sig(restnet))))
+                            cands.setdefault(key, []).append((t, ti, c / ct, restnet, a_, c_))
+                            break
+                        else:
+                            continue
+                        break
+    if "@a" not in H:
+        H["@a"] = HeadInfo("marker")
+        H["@c"] = HeadInfo("marker")
+    for key, lst in cands.items():
+        h = key[0]
+        arg = H[h].arg[1]
+        need = set(range(len(arg)))
+        # group entries by ratio and by rest (iso, with the open ends a / c marked)
+        groups = []
+        for t, ti, ratio, restnet, a_, c_ in lst:
+            for g in groups:
+                if g["ratio"] == ratio and iso(g["rest"], restnet, free):
+                    if t not in g["have"]:
+                        g["have"][t] = ti
+                    break
+            else:
+                groups.append(dict(ratio=ratio, rest=restnet, have={t: ti}, a=a_, c=c_))
+        for g in groups:
+            if set(g["have"]) == need and len(set(g["have"].values())) == len(need):
+                kill = set(g["have"].values())
+                newt = [(c, n) for k, (c, n) in enumerate(terms) if k not in kill]
+                keep = tuple(q for q in g["rest"].f if q[0] not in ("@a", "@c"))
+                newt.append((g["ratio"], Net(keep + (("delta", (g["a"], g["c"])),))))
+                return newt, True
+    return terms, False
+
+
+def normalize_terms(terms, free, _absorb=True):
+    out = _normalize_terms0(terms, free)
+    if _absorb and any(ST.head[h].kind == "Inv" for _, n in out for h, _ in n.f):
+        for _ in range(40):
+            out2, ch = _absorb_inverse(out, set(free))
+            if not ch:
+                break
+            out = _normalize_terms0(out2, free)
+    return out
 
 
 def normalize(v):
@@ -1357,3 +1491,80 @@ def heads_used(v):
         for h, _ in n.f:
             hs.add(h)
     return hs
+
+
+# ------------------------------------------------------------------- rational extension (rule 8)
+
+def zero_mod_recip(v, depth=0):
+    """True if v == 0 after clearing reciprocal heads: write v = sum_p rho^p * N_p and test sum_p N_p d^(m-p) == 0
+    where rho = Recip(d).  Sound for proving equalities (d is a definite polynomial NF)."""
+    v = as_val(v)
+    nt = normalize(v)
+    if not nt:
+        return True
+    if depth > 4:
+        return False
+    free = set(v.free())
+    rhos = sorted({h for _, n in nt for h, _ in n.f if ST.head[h].kind == "Recip"})
+    if not rhos:
+        return False
+    rho = rhos[0]
+    T = None
+    counts = []
+    for c, n in nt:
+        k = 0
+        for h, ix in n.f:
+            if h == rho:
+                if any(x not in free for x in ix):
+                    return False
+                if T is None:
+                    T = ix
+                elif T != ix:
+                    return False
+                k += 1
+        counts.append(k)
+    m = max(counts)
+    dterms = head_arg_val(rho, T, v.axes).terms
+    dval = Val(v.axes, dterms)
+    total = None
+    for (c, n), k in zip(nt, counts):
+        t = Val(v.axes, [(c, Net([g for g in n.f if g[0] != rho]))])
+        for _ in range(m - k):
+            t = mul(t, dval)
+        total = t if total is None else add(total, t)
+    return zero_mod_recip(total, depth + 1) if any(ST.head[h].kind == "Recip" for _, n in normalize(total) for h, _ in n.f) else not normalize(total)
+
+
+def partition_identity(prod, ax=-2):
+    """identity matrix written in the block structure (embedding segments) that `prod` uses on its matrix axes."""
+    nd = len(prod.axes)
+    a = prod.axes[nd - 2]
+    if len(a) != 1:
+        return None
+    i = a[0]
+    segs = set()
+    for c, n in normalize(prod):
+        for h, ix in n.f:
+            if ST.head[h].kind == "E" and ix[0] == i:
+                segs.add(h)
+    if not segs:
+        return None
+    infos = sorted((ST.head[h].extra for h in segs), key=lambda e: (len(repr(e[0])), repr(e[0])))
+    tot = infos[0][2]
+    # order by chaining offsets from 0
+    chain, cur = [], D(0)
+    rest = list(infos)
+    while rest:
+        nxt = [e for e in rest if e[0] == cur]
+        if not nxt:
+            return None
+        chain.append(nxt[0])
+        cur = cur + nxt[0][1]
+        rest.remove(nxt[0])
+    if cur != tot:
+        return None
+    out = None
+    for off, ln, t in chain:
+        blk = embed_axis(embed_axis(eye(ln), 0, off, tot), 1, off, tot)
+        out = blk if out is None else add(out, blk)
+    return out
